@@ -40,21 +40,31 @@ KINDS = [k for k in gp.ALL_KINDS if k not in ('package_fn',)] + DISCARD * 3 + ['
 
 @st.composite
 def cases_(draw):
-    pkg = draw(gp.input_package(1, 3, sizes=(0, 1, 2, 3, 5, 12, 30), types=['string', 'integer', 'number', 'date', 'boolean']))
+    pkg = draw(gp.input_package(1, 3, sizes=(0, 1, 2, 3, 4, 5, 9, 10, 12, 14, 30, 101), types=['string', 'integer', 'number', 'date', 'boolean']))
     prog = draw(gp.programs(1, 6, kinds=KINDS, pkg=pkg, favour_mutators=False))
     steps = prog['steps']
     for s in steps:
         if s['k'] == 'rows_fn' and draw(st.booleans()):
             s['fn'] = 'swallow'
     return {'pkg': prog['pkg'], 'steps': steps, 'observer': draw(st.sampled_from(OBSERVERS)),
-            'at': draw(st.integers(0, len(steps))), 'seq': draw(st.booleans())}
+            'at': draw(st.integers(0, len(steps))), 'seq': draw(st.booleans()),
+            # observer parameters: the file name given to stream(), the printer's block size
+            'oname': draw(st.sampled_from(gp.STREAM_FILE_NAMES)), 'onum': draw(st.sampled_from([2, 3, 10])),
+            # fields carry titles; an unrelated dump with use_titles=True ran earlier in the same process (step instances
+            # share nothing: the later, default dump still writes field names)
+            'titles': draw(st.booleans()), 'primer': draw(st.sampled_from([None, None, 'use_titles']))}
 
 
 def cases(tier):
     return cases_()
 
 
-def observer_spec(name):
+def observer_spec(name, case=None):
+    case = case or {}
+    if name == 'stream_file':
+        return {'k': name, 'name': case.get('oname', 'stream.ndjson')}
+    if name == 'printer':
+        return {'k': 'printer', 'num_rows': case.get('onum', 2), 'fields': ['id', 'g']}
     if name == 'dump_to_path_json':
         return {'k': 'dump_to_path', 'format': 'json'}
     if name == 'dump_to_path':
@@ -111,9 +121,17 @@ def parse_ndjson(path):
 def check(case, ctx):
     pkg, specs, p = case['pkg'], case['steps'], case['at']
     desc0 = gen.descriptor_of(pkg)
+    if case.get('titles'):
+        for r in desc0['resources']:
+            for f in r['schema']['fields']:
+                f['title'] = 'Title of ' + f['name']
+    if case.get('primer') == 'use_titles':
+        with quiet():
+            Flow([{'p': 1, 'q': 'x'}], dataflows.set_type('p', title='P title'),
+                 dataflows.dump_to_path(os.path.join(ctx.tmpdir(), 'primer'), use_titles=True)).process()
     tables0 = gen.tables_of(pkg)
     prog = [s['k'] for s in specs]
-    obs = observer_spec(case['observer'])
+    obs = observer_spec(case['observer'], case)
     classes = ['observer:' + case['observer'], 'at-end' if p == len(specs) else 'not-last'] + sorted({'k:' + k for k in prog[p:]})
     try:
         base_rows, base_desc, _, _ = run(desc0, tables0, specs, ctx, 'b', case['seq'])
@@ -145,6 +163,10 @@ def check(case, ctx):
     try:
         rows, desc, stats, env = run(desc0, tables0, with_obs, ctx, 'o', case['seq'], extra_before=extra, replace=replace)
     except Exception as e:
+        why = gp.data_dependent_rejection(e)
+        if why:
+            # e.g. a join that collects dates into an array: outside the file dumpers' domain (JSON-native nesting)
+            return Info(rejected=True, classes=['rejected:' + why])
         raise unexpected(e, 'program with observer %s at %d: %s' % (case['observer'], p, '/'.join(prog)))
     # ---- transparency
     if sig(desc) != sig(base_desc):
@@ -237,6 +259,9 @@ def check(case, ctx):
             last = max(idx) if idx else 0
             if last != n:
                 raise Violation('completeness:printer:last-row-index', {'last_printed': last, 'rows': n, 'program': prog, 'at': p})
+            if idx != sorted(set(idx)) or (idx and (idx[0] != 1 or idx[-1] != n)):
+                # the table shows rows in stream order, starts with the first row and ends with the last one
+                raise Violation('completeness:printer:row-order', {'printed_indexes': idx[:40], 'rows': n, 'program': prog, 'at': p})
             # printed cells show the stream as it is at the printer's position (id / g columns, when both exist)
             fnames = [f['name'] for f in rd['schema']['fields']]
             if 'id' in fnames and 'g' in fnames:
